@@ -193,6 +193,10 @@ pub struct Card {
     /// a card that really erases the announced number of blocks when the multiple-block write
     /// starts (legal: their contents are undefined until written); off by default
     pub honour_pre_erase: bool,
+    /// after the stop token the card may leave one byte of 0xFF before it signals busy (N_BR 0..1)
+    pub stop_gap: bool,
+    /// length of the busy period after the stop token (None: like any other busy period)
+    pub stop_busy: Option<u64>,
     /// how often each command (ACMDs | 0x80) was seen in the current driver call
     cmd_seen: std::collections::HashMap<u8, u32>,
     /// number of CMD0 frames the card sleeps through (no response at all) after every power-on
@@ -261,6 +265,8 @@ impl Card {
             write_block: 0,
             pre_erase: None,
             honour_pre_erase: false,
+            stop_gap: false,
+            stop_busy: None,
             cmd_seen: Default::default(),
             sleepy: 0,
             sleepy_left: 0,
@@ -773,7 +779,17 @@ impl Card {
                 } else if (!multi && mosi == 0xFE) || (multi && mosi == 0xFC) {
                     Rx::Data { multi, buf: Vec::with_capacity(514) }
                 } else if multi && mosi == 0xFD {
-                    self.queue_busy();
+                    if self.stop_gap {
+                        self.tx.push_back((0xFF, false));
+                    }
+                    match self.stop_busy {
+                        Some(n) => {
+                            for _ in 0..n {
+                                self.tx.push_back((0x00, true));
+                            }
+                        }
+                        None => self.queue_busy(),
+                    }
                     Rx::Idle
                 } else if mosi & 0xC0 == 0x40 {
                     // a command instead of data
